@@ -33,8 +33,9 @@ fn hexs(b: &[u8]) -> String {
     b.iter().map(|x| format!("{:02x}", x)).collect()
 }
 
+static INPROC: std::sync::Mutex<Vec<String>> = std::sync::Mutex::new(Vec::new());
 fn inproc(idx: u64, what: String) {
-    println!("INPROC-VIOLATION idx={} {}", idx, what);
+    INPROC.lock().unwrap().push(format!("INPROC-VIOLATION idx={} {}", idx, what));
 }
 
 /// decoding arbitrary bytes/strings: Err, or a value whose representation is canonical
@@ -105,14 +106,29 @@ fn decode_checks(idx: u64, r: &mut Rng, good_json: &str, good_bin: &[u8]) {
             inproc(idx, format!("postcard decoded {} into a Relaxed with denominator 0", hexs(&b)));
         }
     }
-    let _ = postcard::from_bytes::<F2>(&b);
-    let _ = postcard::from_bytes::<Repr<10>>(&b);
+    if let Ok(v) = postcard::from_bytes::<F2>(&b) {
+        let sig = int_of(v.repr().significand());
+        use num_traits::Zero as _;
+        if !sig.is_zero() && (&sig % BigInt::from(2)).is_zero() {
+            inproc(idx, format!("postcard decoded {} into a non-normalized FBig<_,2> (even significand {:x})", hexs(&b), sig));
+        }
+    }
+    if let Ok(v) = postcard::from_bytes::<Repr<10>>(&b) {
+        let sig = int_of(v.significand());
+        use num_traits::Zero as _;
+        if !sig.is_zero() && (&sig % BigInt::from(10)).is_zero() {
+            inproc(idx, format!("postcard decoded {} into a non-normalized Repr<10> (significand {} divisible by 10)", hexs(&b), sig));
+        }
+    }
 }
 
 fn one(idx: u64, seed: u64) -> String {
     let mut r = Rng::for_case(seed, "C19", idx);
     let r = &mut r;
-    let (al, bl) = (gen::mag(r, 40), gen::mag(r, 40));
+    // mostly up to 40 limbs (80 words of 32 bit: both sides of the schoolbook/Karatsuba switch of every
+    // word size), now and then up to 420 limbs (Toom-3, divide-and-conquer division and radix conversion)
+    let mx = if r.chance(1, 40) { 420 } else { 40 };
+    let (al, bl) = (gen::mag(r, mx), gen::mag(r, mx));
     let (na, nb) = (r.bool(), r.bool());
     let (ua, ub) = (ubig(&al), ubig(&bl));
     let (ia, ib) = (ibig(na, &al), ibig(nb, &bl));
@@ -249,8 +265,21 @@ fn one(idx: u64, seed: u64) -> String {
             format!("ilog {} {}", x.ilog(&UBig::from(3u8)), x.ilog(&UBig::from(w | 2)))
         }
         _ => {
+            // arbitrary byte strings decode to the same number in every build, and re-encode canonically
+            let n = r.usize(40);
+            let bytes: Vec<u8> = (0..n).map(|_| if r.chance(1, 4) { *r.pick(&[0u8, 0xff, 0x80, 0x7f]) } else { r.u64() as u8 }).collect();
+            let (ul, ube) = (UBig::from_le_bytes(&bytes), UBig::from_be_bytes(&bytes));
+            let (il, ibe) = (IBig::from_le_bytes(&bytes), IBig::from_be_bytes(&bytes));
+            for (what, e) in [("UBig::from_le_bytes", layout::check_u(&ul)), ("UBig::from_be_bytes", layout::check_u(&ube)), ("IBig::from_le_bytes", layout::check_i(&il)), ("IBig::from_be_bytes", layout::check_i(&ibe))] {
+                if let Err(e) = e {
+                    inproc(idx, format!("{}({}) is not canonical: {}", what, hexs(&bytes), e));
+                }
+            }
+            if UBig::from_le_bytes(&ul.to_le_bytes()) != ul || IBig::from_be_bytes(&ibe.to_be_bytes()) != ibe || IBig::from_le_bytes(&il.to_le_bytes()) != il {
+                inproc(idx, format!("bytes {} do not survive decode -> encode -> decode", hexs(&bytes)));
+            }
             let s = ia.sqrt_or_zero();
-            format!("misc {:x} cmp={:?} {:?}", s, ia.cmp(&ib), ua.partial_cmp(&ub))
+            format!("misc {:x} cmp={:?} {:?} bytes {:x} {:x} {:x} {:x}", s, ia.cmp(&ib), ua.partial_cmp(&ub), ul, ube, il, ibe)
         }
     }
 }
@@ -273,12 +302,34 @@ fn main() {
     let seed: u64 = a.get(1).and_then(|s| s.parse::<i64>().ok()).unwrap_or(1) as u64;
     let first: u64 = a.get(2).and_then(|s| s.parse().ok()).unwrap_or(0);
     let count: u64 = a.get(3).and_then(|s| s.parse().ok()).unwrap_or(1000);
+    let full = a.iter().any(|s| s == "--full");
     dvh::mon::install_panic_hook();
-    println!("CONFIG word_bits={} std={} debug_assertions={}", dashu_int::Word::BITS, cfg!(feature = "std"), cfg!(debug_assertions));
+    // what this binary itself observes about its build (recorded by the driver as evidence that the
+    // configurations really differ): word size, std feature, debug assertions, overflow checks and the
+    // log2 estimator in use (f32::log2 with std, 8-bit table without)
+    let overflow_checks = dvh::mon::catch(|| {
+        let x: u8 = std::hint::black_box(255);
+        x + std::hint::black_box(1)
+    })
+    .is_err();
+    println!("CONFIG word_bits={} std={} debug_assertions={} overflow_checks={} log2_bounds_3u8={:?} log2_bounds_1e6={:?}", dashu_int::Word::BITS, cfg!(feature = "std"), cfg!(debug_assertions), overflow_checks, 3u8.log2_bounds(), UBig::from(1000000u32).log2_bounds());
+    use std::io::Write;
+    let out = std::io::stdout();
+    let mut out = std::io::BufWriter::new(out.lock());
     for idx in first..first + count {
-        match dvh::mon::catch(|| one(idx, seed)) {
-            Ok(line) => println!("{} {}", idx, line),
-            Err(p) => println!("{} PANIC {}", idx, dvh::mon::normalize_msg(&p)),
+        let line = match dvh::mon::catch(|| one(idx, seed)) {
+            Ok(line) => line,
+            Err(p) => format!("PANIC {}", dvh::mon::normalize_msg(&p)),
+        };
+        for l in INPROC.lock().unwrap().drain(..) {
+            writeln!(out, "{}", l).unwrap();
+        }
+        if full {
+            writeln!(out, "{} {}", idx, line).unwrap();
+        } else {
+            let op = line.split(' ').next().unwrap_or("");
+            let trivial = line.contains("skipped") || line.starts_with("PANIC");
+            writeln!(out, "{} {} {:016x} {}", idx, op, dvh::rng::hash_str(&line), if trivial { "t" } else { "n" }).unwrap();
         }
     }
 }
